@@ -9,11 +9,12 @@ U = 2.0 ** -72         # the unit in the last place of the double 1e-6 (= 472236
 NE = 4722366482869645  # mantissa of the double 1e-6
 NH = (NE - 1) // 2     # NH + (NH + 1) == NE: two stretches that add up to exactly the threshold
 STYLES = ['plain', 'ties', 'coalesce', 'reinserting', 'empty', 'mixed',
-          'pastadds', 'negkids', 'epsgrid', 'decimal', 'diverge', 'clockrel']
+          'pastadds', 'negkids', 'epsgrid', 'decimal', 'diverge', 'clockrel', 'interrupt']
 
 
-class Runaway(Exception):
-    """raised by the recorder itself (hard guard, always on): one evolve_until executed more callbacks + integrations
+class Runaway(BaseException):
+    """(a BaseException: an implementation that wraps the callback in `except Exception` must not swallow it; the
+    watchdog timer repeats for the same reason)  raised by the recorder itself (hard guard, always on): one evolve_until executed more callbacks + integrations
     than the history can account for (a callback fired again and again), or did not return within the wall-clock
     watchdog.  Never raised on a correct implementation: generated histories terminate (dry-run `population`)."""
 
@@ -76,6 +77,8 @@ def gen_history_any(rng, big):
         return style, gen_diverge(rng, nids)
     if style == 'clockrel':
         return style, gen_clockrel(rng, nids)
+    if style == 'interrupt':
+        return style, gen_interrupt(rng, big)
     # callback behaviours: zero/small delays only towards larger ids (a DAG), self-reinsertion
     # only with a delay of at least 1/8 so that every history terminates
     for i in range(nids):
@@ -188,6 +191,29 @@ def gen_clockrel(rng, nids):
     return ops
 
 
+def gen_interrupt(rng, big):
+    """A callback raises in the middle of an ordinary (terminating) evolution and the caller resumes: every
+    evolve_until(T) runs under a guard (the g-th callback executed raises after its work), then the guard is taken off
+    and the same target is requested again.  Lean: interrupted_resume / interrupted_entry_lost - the entry whose
+    callback raised is gone (popped before the call), nothing runs twice, the two calls together are the
+    uninterrupted run.  Several interruptions in a row with probability 1/3."""
+    while True:
+        style, base = gen_history_any(rng, big)
+        if style in ('plain', 'ties', 'coalesce', 'reinserting', 'mixed', 'pastadds', 'negkids', 'clockrel'):
+            break
+    ops = []
+    for op in base:
+        if op[0] != 'evolve':
+            ops.append(op)
+            continue
+        for _ in range(1 + 2 * int(rng.random() < 0.33)):
+            ops.append(('guard', int(rng.integers(1, 12))))
+            ops.append(op)
+        ops.append(('guard', 0))
+        ops.append(op)
+    return ops
+
+
 def clock_relative(ops):
     return any(op[0] == 'kids' and any(len(k) > 2 and k[2] == 'clock' for k in op[2]) for op in ops)
 
@@ -292,6 +318,33 @@ def hard_bound(ops):
     four times what the dry run of the whole history executes (each callback is preceded by at most one integration,
     plus slack for the coalescing the dry run ignores), and at least 200."""
     return 4 * population(ops, cap=4 * POPULATION_CAP) + 4 * sum(1 for op in ops if op[0] in ('add', 'evolve')) + 200
+
+
+def progress(kids):
+    """(delta, B) when every callback behaviour schedules its children at least delta > 0 after the callback's OWN time
+    and at most B of them (the hypothesis of Lean evolve_total_of_progress); None otherwise."""
+    ds = [d for l in kids.values() for (d, c, kind) in l]
+    if any(kind != 'own' for l in kids.values() for (d, c, kind) in l) or any(d <= 0 for d in ds):
+        return None
+    return (min(ds) if ds else 1.0, max([len(l) for l in kids.values()] + [0]))
+
+
+GEOM_CAP = 10 ** 6
+
+
+def geom(B, n):
+    """1 + B + ... + B^(n-1) (Lean: geom), or None when that exceeds GEOM_CAP (the bound then says nothing a run of at
+    most POPULATION_CAP callbacks could violate)"""
+    if B == 0:
+        return min(n, 1)
+    if B == 1:
+        return n if n <= GEOM_CAP else None
+    g = 0
+    for _ in range(n):
+        g = 1 + B * g
+        if g > GEOM_CAP:
+            return None
+    return g
 
 
 def run_real(ops):
@@ -424,6 +477,7 @@ def run_real(ops):
             nexec[0] = 0
             nrec[0] = 0
             t0 = fl(s.t)
+            q0 = sorted(fl(q[0]) for q in s.callbacks)
             n_sched0 = len(scheduled)
             status = 'ok'
             how = op[2] if len(op) > 2 else 'f'
@@ -432,7 +486,7 @@ def run_real(ops):
             old_handler = None
             try:
                 old_handler = signal.signal(signal.SIGALRM, on_alarm)
-                signal.setitimer(signal.ITIMER_REAL, _watchdog[0])
+                signal.setitimer(signal.ITIMER_REAL, _watchdog[0], 0.5)
             except (ValueError, AttributeError, OSError):      # not the main thread / no SIGALRM: the count guard remains
                 old_handler = None
             try:
@@ -461,6 +515,7 @@ def run_real(ops):
                         'events': list(s.events), 'queue': queue, 'scheduled': list(scheduled), 'n_sched0': n_sched0,
                         'hz': hz, 'adds_after_horizon': adds_after_horizon, 'alias': alias,
                         'adds_from_clock': adds_from_clock, 'wf': wf[0], 'guard': guard[0], 'why': why,
+                        'q0': q0, 'progress': progress(kids),
                         'nrec': nrec[0]})
             alias = []
             if status == 'runaway':
@@ -501,7 +556,7 @@ def real_hist_line(obs, ops):
     fuel = FUEL
     for op in ops:
         if op[0] == 'guard':
-            fuel = int(op[1])
+            fuel = int(op[1]) or FUEL
         elif op[0] == 'evolve':
             fuels.add(fuel)
     # `replay`: the model re-ran the whole history through runOps with one entry-only callback table and one fuel and
@@ -565,7 +620,27 @@ def real_line(o):
 ARRAYS = ('0d', '1d', '0ds', '1ds')
 
 
-def model_lines(ops):
+def progress_fuels(ops, obs):
+    """The explicit fuel of Lean `evolve_total_of_progress` for every evolve_until of a history that meets its hypotheses
+    (no guard; every callback behaviour schedules its children >= delta > 0 after its own time, at most B of them;
+    nothing queued before the clock when the call starts): N = |queue| * geom(B, ceil((T - t) / delta)) + 1.
+    None when the history does not qualify."""
+    import math
+    if any(op[0] == 'guard' for op in ops) or not obs or len(obs) != sum(1 for op in ops if op[0] == 'evolve'):
+        return None
+    out = []
+    for o in obs:
+        if o['status'] not in ('ok', 'value') or not o.get('progress') or any(q < o['t0'] for q in o['q0']):
+            return None
+        delta, B = o['progress']
+        n = max(0, math.ceil((Fraction(o['T']) - Fraction(o['t0'])) / Fraction(delta)))
+        if geom(B, n) is None:
+            return None
+        out.append(len(o['q0']) * geom(B, n) + 1)
+    return out
+
+
+def model_lines(ops, fuels=None):
     """The history as the CALLER's program (Lean: `ROp`, Model/SchedulerRef.lean): a time handed over as a caller-owned
     array is a reference to a cell (`cell k x` = the caller writes x into its array k; `addref` / `evolveref` hand the
     cell over), and the in-place change the caller makes right after the call (`poison` in run_real: += 0.5, += 1024.5,
@@ -574,6 +649,7 @@ def model_lines(ops):
     lines = ['C20 reset']
     idx = []
     fuel = FUEL
+    fuels = list(fuels) if fuels else None    # per-evolve fuels (progress_fuels) instead of FUEL
     npoison = 0
     fresh = 2
     for op in ops:
@@ -595,9 +671,11 @@ def model_lines(ops):
         elif op[0] == 'mode':
             continue            # callbacks passing the clock object back: times are values
         elif op[0] == 'guard':
-            fuel = int(op[1])   # the N-th callback raises  <->  the model runs on fuel N
+            fuel = int(op[1]) or FUEL   # the N-th callback raises  <->  the model runs on fuel N (0: no guard)
         else:
             idx.append(len(lines))
+            if fuels:
+                fuel = fuels.pop(0)
             lines.append('C20 evolve %s %d new' % (rat(op[1]), fuel) if cell is None else 'C20 evolveref %d %d new' % (cell, fuel))
         if cell is not None:
             v = float(op[1])
@@ -650,6 +728,9 @@ def oracle(obs):
             if not set(fired_keys) <= known:
                 bad.append(('exactly-once', 'a callback ran that was not due before T=%r or had run already' % (T,)))
             executed_before |= set(fired_keys)
+            if set(fired_keys) & set(o['queue']):
+                bad.append(('raised-callback-requeued', 'a callback that was executed (the last one raised) is still queued: %r'
+                            % (sorted(set(fired_keys) & set(o['queue']))[:3],)))
             if len(fires) != o['guard']:
                 bad.append(('guard', 'the guard tripped after %d callbacks, not %d' % (len(fires), o['guard'])))
             continue
@@ -667,6 +748,19 @@ def oracle(obs):
             key = 'raises-%s%s' % (o['status'], '-empty-queue' if not pending else '')
             bad.append((key, 'evolve_until(%r) raised %s (queue %s)' % (T, o['status'], 'empty' if not pending else 'non-empty')))
             continue
+        if o.get('guard') and len(fires) >= o['guard']:
+            bad.append(('callback-exception-swallowed', 'the %d-th callback of evolve_until(%r) raised, but the call returned normally '
+                        'after %d callbacks' % (o['guard'], T, len(fires))))
+        # termination with the explicit bound (Lean: evolve_total_of_progress): children at least delta after their
+        # parent, at most B of them, nothing queued before the clock -> at most |queue| * (1 + B + .. + B^(n-1)) callbacks,
+        # n = ceil((T - t0) / delta)
+        if o.get('progress') and all(q >= o['t0'] for q in o['q0']):
+            import math
+            delta, B = o['progress']
+            n = max(0, math.ceil((Fraction(T) - Fraction(o['t0'])) / Fraction(delta)))
+            if geom(B, n) is not None and len(fires) > len(o['q0']) * geom(B, n):
+                bad.append(('progress-bound', 'evolve_until(%r) from clock %r with %d queued executed %d callbacks, more than %d * geom(%d, %d)'
+                            % (T, o['t0'], len(o['q0']), len(fires), len(o['q0']), B, n)))
         # exactly once: everything ever scheduled with time < T and not executed earlier
         due = set((t, c) for (t, c, i) in o['scheduled'] if t < T) - executed_before
         if len(set(fired_keys)) != len(fired_keys):
@@ -864,6 +958,8 @@ def run(ctx):
     all_lines = []
     index = []
     observations = []
+    tight = []
+    n_tight = ctx.scale(150, 1500)
     for style, ops in hist:
         obs = check_history(ctx, style, ops)
         if clock_relative(ops):
@@ -874,6 +970,14 @@ def run(ctx):
         all_lines += lines
         index.append([base + i for i in idx] + [base + len(lines) - 1])
         observations.append((style, ops, obs))
+        # the same history once more on exactly the fuel of evolve_total_of_progress (when its hypotheses hold): the
+        # model must return (not run out of fuel) and print the same lines, i.e. the real unbounded loop's run
+        pf = progress_fuels(ops, obs)
+        if pf is not None and len(tight) < n_tight:
+            lines2, idx2 = model_lines(ops, fuels=pf)
+            base2 = len(all_lines)
+            all_lines += lines2
+            tight.append((ops, obs, [base2 + i for i in idx2], pf))
     eps_line = len(all_lines)
     all_lines.append('C20 eps %s' % (rat(consts[0]) if len(consts) == 1 else '0'))
     out = ctx.model(all_lines)
@@ -881,6 +985,16 @@ def run(ctx):
     if len(consts) != 1 or out[eps_line] != 'ok':
         ctx.disagree('C20 eps', {'impl': 'float literals of DynamicOpticalSystem.evolve_until: %r' % (consts,),
                                  'model': out[eps_line] + ' (eps of Model/Scheduler.lean)'})
+    for ops, obs, idx2, pf in tight:
+        ctx.count('histories_rerun_on_the_fuel_of_evolve_total_of_progress')
+        ctx.count('progress_fuel_total', sum(pf))
+        ctx.count('progress_callbacks_total', sum(1 for o in obs for e in o['events'] if e[0] == 'F'))
+        for o, i, f in zip(obs, idx2, pf):
+            ctx.traces_validated += 1
+            if real_line(o) != out[i]:
+                ctx.disagree('C20 evolve on the fuel of evolve_total_of_progress',
+                             {'ops': ops, 'T': o['T'], 'fuel': f, 'impl': real_line(o), 'model': out[i]})
+                break
     for (style, ops, obs), idx in zip(observations, index):
         ihist = idx.pop()
         # stored by value (Lean: stored_by_value / Bad.byReference): the caller program replayed through `runG .copy`
